@@ -2525,6 +2525,13 @@ func (a *align) Split(part *PartitionSet) (als []Alignment, err error) {
 				firstpos = false
 			}
 		}
+		if firstpos {
+			// no site in this partition: keep the sequences (without any site), as SubAlign and
+			// SelectSites do for an empty selection, instead of returning an alignment without sequence
+			for _, seq := range a.seqs {
+				alsimpl[pi].AddSequenceChar(seq.name, []uint8{}, seq.comment)
+			}
+		}
 	}
 	return
 }
